@@ -92,7 +92,64 @@ def perturb(rng, v, start, count, stride, numrecs, isput, strict):
             if l2 <= 0:
                 return None
             s[i] = min(max(s[i], 0), l2 - 1); c[i] = 1; t[i] = max(t[i], 1)
+    if kind in ('neg_start', 'big_start', 'eq_start', 'neg_count', 'edge'):
+        # the same argument errors through the other API families: vara, and varn (one list of segments;
+        # a request with count >= 2 is split in two segments, the invalid part may be the second one)
+        form = rng.choice(['vars', 'vara', 'varn', 'varn'])
+        if form != 'vars':
+            t = [1] * nd
     return s, c, t, exp, form, kind
+
+
+def seg_rc(v, isput, strict, numrecs, st, cn):
+    """documented verdict for one unit-stride segment (start, count) of variable v: all starts are
+    checked first (NC_EINVALCOORDS), then the counts (NC_ENEGATIVECNT, NC_EEDGE)"""
+    lims = []
+    for i in range(v.nd):
+        isrecdim = (i == 0 and v.isrec)
+        lims.append(None if (isrecdim and isput) else (numrecs if isrecdim else v.shape[i]))
+    for i in range(v.nd):
+        if st[i] < 0:
+            return EINVALCOORDS
+        lim = lims[i]
+        if lim is None:
+            continue
+        if i == 0 and v.isrec and not isput and lim == 0 and cn[i] > 0:
+            return EINVALCOORDS
+        if strict:
+            if st[i] >= lim:
+                return EINVALCOORDS
+        elif st[i] > lim or (st[i] == lim and cn[i] > 0):
+            return EINVALCOORDS
+    for i in range(v.nd):
+        if cn[i] < 0:
+            return ENEGATIVECNT
+        lim = lims[i]
+        if lim is not None and (cn[i] > lim or st[i] + cn[i] > lim):
+            return EEDGE
+    return 0
+
+
+def varn_expected(line, v, isput, strict, numrecs):
+    """first failing segment's verdict of an emitted varn line (None if the line cannot be parsed)"""
+    t = line.split()
+    try:
+        i = t.index('varn') + 2                 # memory type token follows
+        if t[i] == 'c':
+            i += 1 if t[i - 1][0] == 't' else 2
+        elif t[i] == 'n':
+            i += 1
+        else:
+            i += 4
+        nseg, nd = int(t[i]), int(t[i + 1]); i += 2
+        for _ in range(nseg):
+            st = [int(x) for x in t[i:i + nd]]; cn = [int(x) for x in t[i + nd:i + 2 * nd]]; i += 2 * nd
+            rc = seg_rc(v, isput, strict, numrecs, st, cn)
+            if rc:
+                return rc
+        return 0
+    except (ValueError, IndexError):
+        return None
 
 
 def gen_inv_session(rng, np_=None):
@@ -123,6 +180,11 @@ def gen_inv_session(rng, np_=None):
             ln = sess.one_access('put' if isput else 'get', 'c', v, s, cn, t, form=form)
             sess.ann[ln]['expect_rc'] = exp
             sess.ann[ln]['perturbation'] = tag
+            if sess.ann[ln].get('form') == 'varn' and v.nd > 0:
+                # the request was split into segments: the verdict is that of the first offending segment
+                e2 = varn_expected(sess.lines[ln - 1], v, isput, strict, sess.numrecs)
+                if e2 is not None and e2 != 0:
+                    sess.ann[ln]['expect_rc'] = e2
             if exp == 0 and tag != 'stride_last_valid':
                 sess.ann[ln]['count'] = [0] * v.nd       # zero-length: addresses nothing
             if tag == 'stride_last_valid':
